@@ -3,8 +3,12 @@
    the engine backtracks, so the statement "group N = the head of the ordered-choice semantics" is
    false on patterns with a group under a quantifier or in an alternation, and unproved elsewhere.
    Proved so far: what $N and analyze read is exactly the recorded span (no off-by-one, checked
-   slicing), and a match without groups is reported as one String leaf equal to the match. *)
-From RX Require Import Base.Prelude Model.Engine Model.Matcher Model.Api.
+   slicing); a match without groups is reported as one String leaf equal to the match; and the event
+   walk that builds the analyze tree preserves the text - whatever group events are queued at
+   whatever offsets, the leaves of the frames it leaves behind concatenate to the matched substring
+   (so "the concatenation of all String leaves of a Match equals the matched substring" whenever the
+   events are balanced, i.e. whenever one frame is left). *)
+From RX Require Import Base.Prelude Model.Engine Model.Matcher Model.Api Proofs.AnalyzeFacts.
 
 Theorem C03_get_paren_is_recorded_span_partial :
   forall input s g a b, Nat.ltb g (pcount (cs_ s)) = true ->
@@ -25,6 +29,19 @@ Theorem C03_no_groups_one_leaf_partial :
     process_matching_substring table s current = Ok [MStr current].
 Proof. intros table s current H. unfold process_matching_substring. rewrite H. reflexivity. Qed.
 
+Theorem C03_walk_preserves_text_partial :
+  forall current fuel i actions buf stack stack',
+    walk current fuel i actions buf stack = Ok stack' ->
+    stext stack' = stext stack ++ btext buf ++ skipn i current.
+Proof. exact walk_text. Qed.
+
+Theorem C03_leaves_concatenate_to_match_partial :
+  forall current fuel actions es nr,
+    walk current fuel 0 actions None [(O, [])] = Ok [(nr, es)] -> vtext (rev es) = current.
+Proof. exact walk_leaves. Qed.
+
 Print Assumptions C03_get_paren_is_recorded_span_partial.
 Print Assumptions C03_unset_group_contributes_nothing_partial.
 Print Assumptions C03_no_groups_one_leaf_partial.
+Print Assumptions C03_walk_preserves_text_partial.
+Print Assumptions C03_leaves_concatenate_to_match_partial.
